@@ -442,9 +442,13 @@ def execute(case):
     res = {"ok": True, "oracle": None, "detail": "", "known": None, "stats": stats}
     ref, dec, dec_nf = references(case, payload, bom_len)
     probes.reset()
+    probes.set_budget(len(payload))
     log = ReadLog(len(payload))
     src = make_source(case["kind"], payload, case["src"], log)
-    out = _parse(src, case["chunk"], kwargs, log)
+    try:
+        out = _parse(src, case["chunk"], kwargs, log)
+    finally:
+        probes.set_budget(None)
     truth, rule, info = ground_truth(case, len(payload), decls)
 
     # ---- reach / faults / probes
